@@ -130,7 +130,10 @@ def shard_main(argv):
         # property's domain is an observation about the library, not a harness failure; anything else is re-raised (shard died)
         import traceback
         tb = traceback.extract_tb(e.__traceback__)
-        if not tb or not os.path.realpath(tb[-1].filename).startswith(root + os.sep):
+        from .gen import LibraryMisbehaved
+        if isinstance(e, LibraryMisbehaved):
+            pass
+        elif not tb or not os.path.realpath(tb[-1].filename).startswith(root + os.sep):
             raise
         ctx.fail('api_raised_unexpectedly', {'shard_spec': {k: v for k, v in spec.items() if k not in ('pairs',)}},
                  exc=repr(e), where='%s:%d %s' % (os.path.relpath(tb[-1].filename, root), tb[-1].lineno, tb[-1].name),
